@@ -49,6 +49,10 @@ let () =
   register "c11.i64" (function [h] -> i64_s (bytes_of_hex h) | _ -> "BADCASE");
   register "c11.bool" (function [h] -> bool_s (bytes_of_hex h) | _ -> "BADCASE");
   register "c11.f64" (function [h] -> f64_s (bytes_of_hex h) | _ -> "BADCASE");
+  register "c11.u64t" (function [h; st] ->
+      show_outcome (fun (v, r) -> string_of_n v ^ " " ^ hex_of_bytes r) (ScalarSpec.u64t_spec (bytes_of_hex h) (n_of_string st)) | _ -> "BADCASE");
+  register "c11.i64t" (function [h] ->
+      show_outcome (fun (v, r) -> string_of_z v ^ " " ^ hex_of_bytes r) (ScalarSpec.i64t_spec (bytes_of_hex h)) | _ -> "BADCASE");
   register "c11.at" (function [h; _off] ->
       let d = bytes_of_hex h in
       S.concat ";" [u64_s d; i64_s d; f64_s d; bool_s d] | _ -> "BADCASE");
